@@ -5,6 +5,7 @@ CLASSIFY_PURE = [
     "spowtd.classify:get_mystery_jump_mask",
     "spowtd.classify:get_true_interval_masks",
     "spowtd.classify:find_stable_matching",
+    "spowtd.classify:find_stable_matching#terminates",
     "spowtd.classify:check_for_uniform_time_steps",
     "spowtd.classify:get_candidate_match_intervals",
     "spowtd.classify:match_storms",
@@ -15,10 +16,14 @@ CLASSIFY_PURE = [
     "spowtd.classify:disambiguate_matching",
     "lemma:run_counter_basic",
     "lemma:run_counter_separation",
+    "lemma:prefix_sums_monotone",
+    "lemma:point_decrement_sum",
 ]
 
 _PURE_NOTE = ("Assumed: numpy primitives as specified in pyvc/libspec.py; floats as reals; int64 does not overflow; "
-              "termination of the deferred-acceptance while loop is not proved. Every SQL statement enters through an assumed "
+              "the deferred-acceptance while loop terminates (variant find_stable_matching#terminates: the number of candidates left over "
+              "all storms decreases with every iteration and is never negative; lemmas point_decrement_sum, prefix_sums_monotone); "
+              "termination of the for loops over finite sequences is by construction. Every SQL statement enters through an assumed "
               "contract (contracts/sql.py, keyed by the statement text read from /repo) and the Loaded(db) facts stated there; "
               "the contract of disambiguate_matching (including the C02 clause) is also evaluated natively on all small "
               "many-to-many relations (validation of the contract text, not counted in `discharged`).")
@@ -47,7 +52,9 @@ PROPS = {
     },
     "C02": {
         "targets": ["spowtd.classify:find_stable_matching", "spowtd.classify:find_stable_matching#optimal",
-                    "spowtd.classify:disambiguate_matching", "lemma:blocking_translation"],
+                    "spowtd.classify:find_stable_matching#terminates",
+                    "spowtd.classify:disambiguate_matching", "lemma:blocking_translation",
+                    "lemma:prefix_sums_monotone", "lemma:point_decrement_sum"],
         "bounded": [_tables("C02")],
         "level_text": "Unbounded proof of the deferred-acceptance loop: loop invariants I1-I5 give at exit that no candidate "
                       "pair blocks the result (storm side by list position, rise side by preference value); and, with strict "
